@@ -293,6 +293,17 @@ def _r113(ck, prog, cfg):
                  "apply_recovered_state does not pass the recovered deltas to apply_remote_deltas as it received them (%s): picking, "
                  "collapsing or reordering them replaces the merge of all persisted updates of a key by one of them" % a.path(),
                  ars.where(dt["ln"]), detail="apply_remote_deltas(deltas) with the parameter itself")
+    # the hop before: StreamingIntegration::recover hands RecoveredState.{checkpoint_state, deltas} over untouched
+    integ = prog.one("streaming::integration::StreamingIntegration::<S>::recover::{closure#0}")
+    hand = [(b, t) for b, t in integ.calls() if is_callee(t, r"ReplicatedShardedState::<.*>::apply_recovered_state$")]
+    ck.check(len(hand) == 1, "R11.3", "integration:hands-over" + _tag(cfg), "StreamingIntegration::recover does not call apply_recovered_state exactly once", integ.where())
+    for hb, ht in hand:
+        for idx, fld in ((1, "checkpoint_state"), (2, "deltas")):
+            a = src_of_operand(integ, ht["args"][idx], through_calls=(r"Try>::branch$",))
+            good = a.kind == "call" and "RecoveryManager::<S>::recover" in callee(a.term) and a.fields[-1:] == (fld,)
+            ck.check(good, "R11.3", "integration:%s-as-recovered%s" % (fld, _tag(cfg)),
+                     "StreamingIntegration::recover does not hand RecoveredState.%s to the node as the recovery manager returned it (%s)" % (fld, a.path()[-80:]),
+                     integ.where(ht["ln"]), detail="recovered.%s passed through" % fld)
     # the merging ingest
     ing = prog.one("replication::state::shard_state::ShardReplicaState::apply_remote_delta")
     m = [(b, t) for b, t in ing.calls() if is_callee(t, r"ReplicatedValue::merge$")]
